@@ -236,7 +236,7 @@ func genC16Raw(g *Gen) {
 		return uu.slot, Hex([]byte(uu.uid))
 	}
 	for n := 0; n < nops; n++ {
-		switch g.R.Pick(62, 10, 22, 3, 3) {
+		switch g.R.Pick(66, 12, 12, 5, 5) {
 		case 0:
 			emit(subOp(false))
 		case 1:
